@@ -141,6 +141,30 @@ pub fn record(a: &Args) {
             run_pair::<EisenInt<i64>>(&mut t, &mut st, 2, &e(EisenInt::new(a0, b0), EisenInt::new(a1, b1)), &ze, true);
         }
     }
+    // the family d1 = diag(x, y, z) over Z with x, y, z from a pool of small composites, rows and columns permuted, d2 = 0:
+    // the diagonal handed to the Smith normalisation is then far from a divisibility chain (two or three gcd / lcm merges
+    // in one sweep), the torsion of H is Z/x + Z/y + Z/z and must be reported by its invariant factors
+    {
+        let mut rng = a.rng(58);
+        let pl: [i64; 8] = [2, 3, 4, 5, 6, 9, 10, 12];
+        let mut all = vec![];
+        for x in pl { for y in pl { for z in pl { all.push(vec![x, y, z]); } } }
+        for x in pl { for y in pl { all.push(vec![x, y, 4, 9]); all.push(vec![6, x, y, 10]); } }
+        { use rand::seq::SliceRandom; all.shuffle(&mut rng); }
+        let picks = if a.thorough() { all.len() } else { 100 };
+        for (k, d) in all.into_iter().take(picks).enumerate() {
+            st.cases += 1;
+            let n = d.len();
+            let (pr, pc) = if k % 3 == 0 { ((0..n).collect::<Vec<_>>(), (0..n).collect::<Vec<_>>()) } else { (rand_perm(&mut rng, n), rand_perm(&mut rng, n)) };
+            if k % 2 == 0 {
+                let s1 = SpMat::<i64>::from_entries((n, n), (0..n).map(|i| (pr[i], pc[i], d[i])));
+                run_pair::<i64>(&mut t, &mut st, n, &s1, &SpMat::zero((1, n)), true);
+            } else {
+                let s1 = SpMat::<BigInt>::from_entries((n, n), (0..n).map(|i| (pr[i], pc[i], BigInt::from(d[i]))));
+                run_pair::<BigInt>(&mut t, &mut st, n, &s1, &SpMat::zero((1, n)), false);
+            }
+        }
+    }
     let pool: &[i64] = &[2, 3, 4, 6, 9, 2, 5, 12];
     run!(i64, 1, maxd, pool, true); run!(BigInt, 2, maxd, pool, false); run!(Ratio<i64>, 3, maxd, &[2, 3], true);
     run!(FF<3>, 4, maxd, &[], false); run!(FF<5>, 5, maxd, &[], false);
